@@ -192,7 +192,9 @@ def gen_cases(ctx):
         for _ in range(6):
             lv = mk()
             ev = G.evaluate(kind, lv)
-            if not (ev.degenerate or ev.vis.empty()) or rng.random() < 0.12: return lv
+            region = (ev.degenerate or ev.vis.empty() or ev.has_additions or ev.multi_own_ext
+                      or (ev.ext and ev.vis.lb() is None))       # F92, F11, F91, F94
+            if not region or rng.random() < 0.12: return lv
         return lv
     scale = 1 if quick else 25
     # 3. random deeper trees (depth 2-3, width 2-3), chains of specs and references
